@@ -10,6 +10,8 @@ mod = importlib.import_module('harness.props.' + pid.lower())
 scratch = build.build_impl('normal')
 mod.run(ctx, scratch)
 print('evaluations', ctx.evaluations, 'nontrivial', len(ctx.nontrivial), 'violations', len(ctx.violations), 'known', len(ctx.known_hits), 'wall', round(ctx.elapsed(), 1))
+print("proof_broken", ctx.proof_broken[:3])
+print("extra", {k: v for k, v in ctx.extra.items() if not isinstance(v, (list, dict))})
 seen = set()
 for v in ctx.violations:
     k = (v['site'], v.get('kind'), v.get('variant'), v['what'][:60])
